@@ -68,9 +68,34 @@ CLAIMED = {
         text='Props/C14.lean: for all nine SparsityConverter specialisations (model parameterised by translator-generated triangle tests, scatter targets, first_index offsets, loop conditions, nnz formulas, result flags, feature macro): a successful conversion denotes the same matrix (convert_preserves), every dense cell incl. mirrored ones is filled, requested first_index / SortedRows / index type honoured and order tags stay truthful, non-square-symmetric and wrong-triangle inputs are rejected with invalid_argument by conversions to dense, dense-lower sources and (in this build) COO->CSC / CSC sorting are rejected, sparse->sparse never changes the denotation. Partial: inputs with undefined behaviour in C++ (out-of-range index into dense, malformed outer pointers), duplicate entries and the C++23 sorting paths compiled out by g++ 12 are outside the theorems.',
         note='Lean kernel + Mathlib tactics; gen/gen_c14.py (~50 generated definitions, 9 pinned loop skeletons); hand loop models tied on explored inputs only; Eigen column-major / resize / copy semantics and value-preserving index casts assumed.',
         design='§6 C14, §10'),
+    'C04': dict(
+        technique='Lean 4 proof over ordered fields / R of translator-generated calc_yhat and default_eval_* (vtable = record of oracles) + staged resolve with fixpoint theorem + decided slot/ABI tables + bit-exact correspondence (values and call log) over provider masks and wrappers + exact-rational and symbolic-derivative monitors',
+        category='proof',
+        text='calc_y_hat (both Sigma branches) and all 11 modelled default_eval_* are regenerated from type-erased-problem.tpp on every run. Theorems: calc_closed, scalar_sigma_branch_eq, yhat_closed, dTyhat_closed (= dist_Sigma^2), resolve_fixpoint, resolve_correct (every entry of the constructed vtable equals its closed form for all 2^7 provider subsets, m = 0, scalar/vector Sigma, Option bounds), psi_closed, grad_psi_closed, grad_L_closed, psi_grad_psi_consistent, m_zero_shortcuts, hess-psi fallback iff supports_*, error-form lemmas for C01, half_sq_dist_hasDerivAt (kinks and infinite sides), grad_psi_is_derivative (HasFDerivAt), slot_tables / macros_ok / abi_orders by decide. Tied by the translator and by correspondence over ct / cnt / rt / fun / dl routes; CasADi route monitored on values.',
+        note='Lean kernel + Mathlib; gen/gen_c04.py; hand model resolve tied on explored masks (14 quick, 142 thorough) and inputs only; user-supplied functions assumed to meet their contract; grad g*y = 0 for m = 0 assumed; real-number semantics, rounding measured by monitors; workspace arguments modelled as write-only.',
+        design='§6 C04'),
+    'C07': dict(
+        technique='Lean 4 proof (ordered field, induction over the outer loop) about the translator-generated ALM loop body + hand-written control skeleton; bit-exact scripted-inner-solver correspondence (exhaustive short / random long histories); exact monitors on the real ALMSolver recorded calls',
+        category='proof',
+        text='Gen/C07.lean regenerates update_penalty_weights, initialize_penalty and every statement of ALMSolver::operator() (except clock reads / printing) on every run; theorems for all inner-solver functions, all histories, m incl. 0, single_penalty_factor both ways, optional user Sigma, under the explicit decidable ValidParams / ValidSigma: penalty_pos, penalty_le_max, penalty_mono, penalty_grows_only_where_needed (+ unchanged when ||e|| <= delta), multipliers_in_bounds_signed (via C15), tolerance_antitone_ge_final, outer_le_max_iter (+ logic_error unreachable), converged_iff_last_inner (m = 0 variant under the inner contract), interrupted_returns_immediately, sigma_handed_back, stats_are_sums, m0_single_call.',
+        note='Lean kernel + Mathlib; translator gen/gen_c07.py (+ regex-pinned call sites); hand-written skeleton tied only on explored histories; clock = one oracle bit per inner solve; real-number semantics (NoNaN); open known findings = excluded points of ValidParams (the C++ validates no parameters).',
+        design='§6 C07, §7-H'),
+    'C20_PENDING': dict(
+        technique='Lean 4 proof: kernel-decided table theorems over translator-regenerated forwarding / vtable / C-ABI / constructor tables + inductive refinement proof of the shared counter block + decision-table proof of the loader; op-sequence correspondence of the real wrappers / loaders (plug-ins built per run) with the Lean driver; independent monitors; compile probes',
+        category='proof',
+        text='forward_transparent (both counting wrappers, FunctionalProblem, DLProblem / DLControlProblem against dl-problem.h argument orders), counters_bijective, provides_ forwards and tests-the-member-it-calls, wrap_transparent (capability flags through the wrapper = flags of the problem), counter_eq_calls for every create/call/copy/decouple/reset sequence, reset_keeps_usable, flags_truthful for every subset of optional functions (m = 0 or not), loader_decision for every plug-in description - all over tables regenerated from the C++ on every run; entries of the unchanged tree that violate a table theorem are excluded by name and reported as findings with reproductions on the real code. Partial: values (bit-exact transparency) and the default-composition model are tied by correspondence / monitors only; timers not modelled.',
+        note='Lean kernel + Mathlib tactics; translator gen/gen_c20.py; hand models tied on explored sequences only; std::shared_ptr / dlopen semantics assumed as documented; crashes observed in a forked child; eval_jac_g with m = 0 treated as a documented default.',
+        design='§6 C20, §7-F'),
+    'C16': dict(
+        technique='Lean 4 proof (translator-generated predicates and per-path action-order tables of util/type-erasure.hpp; inductive invariant of a pool of wrappers over a checked ghost heap, for every operation sequence) + event-log op-sequence correspondence against the real TypeErased under ASan/UBSan + independent value-semantics monitors',
+        category='proof',
+        text='Props/C16.lean: the per-path action order of every copy/move/assign/cleanup function regenerated from the C++ equals the model; moved-from objects are destroyed and nulled; sentinel / ownership / const / small-buffer predicates; const and type violations throw with the state unchanged. The invariant Inv (structural plus per-id construction and destruction counts) is preserved by every operation, hence by every operation sequence of any length (inv_step, inv_run, no_error): no double destroy, no destroy of an unconstructed object, no double or wrong-allocator free, no dangling dispatch. Consequences: construct_destroy_once, blocks_returned_to_origin, dispatch_own_object, owners_disjoint, copies_independent, set_is_local, refs_alias, copy_of_ref_aliases, throwing_copy_leaves_empty.',
+        note='Lean kernel; gen_c16.py translator; hand model tied on explored sequences only (pool of 3 wrappers, 8 allocator-trait configs, payloads 16/32/48 with SBS=32; depth 1 complete, deeper sampled, random up to 200); payload sizes are not the reference sentinels; referenced objects outlive wrappers; calls on empty wrappers out of scope; move constructors and allocators do not throw.',
+        design='§6 C16'),
 }
 
 NOT_YET = {
+    'C20': 'model, theorems and check exist (checks/c20.py); withheld from the claimed list until the repairs of its findings F1-F8 are applied to /repo (the model already follows the repaired code)',
 }
 
 def main():
@@ -79,7 +104,7 @@ def main():
     na = []
     for p in props:
         pid = p['id']
-        if pid in CLAIMED:
+        if pid in CLAIMED and not pid.endswith('_PENDING'):
             c = CLAIMED[pid]
             s = pid.lower()
             checks.append({
